@@ -388,7 +388,7 @@ def C08(ck):
     ck.add_model(vlib.mc("MC_Claims", "MC_Claims_decoded.cfg"))
     dom = vlib.gen_export("Gen_Claims", "Gen_Claims.cfg", "domains")
     try:
-        ck.run_and_judge(["gates", "-seed", ck.seed, "-tier", ck.tier, "-chunk", 3000, "-in", dom, "-out", ck.path("ga")], "Trace_Wire",
+        ck.run_and_judge(["gates", "-seed", ck.seed, "-tier", ck.tier, "-reg", "X2", "-chunk", 3000, "-in", dom, "-out", ck.path("ga")], "Trace_Wire",
                          par=12, xmx="3g")
     finally:
         _rm(dom)
